@@ -43,10 +43,39 @@ ASSUMPTIONS = [
     "reference matcher with leaf labels in vf/models/dimlang.py + vf/models/ptcheck.py",
 ]
 
-WRAPS = ["plain", "union", "tuple", "nested", "plain"]
+WRAPS = ["plain", "union", "tuple", "nested", "lazy", "plain"]
+
+
+def _helper(x):
+    return x
+
+
+_helper.__annotations__ = {"x": Shaped[np.ndarray, "vf_lazy_n"], "return": Shaped[np.ndarray, "vf_lazy_n"]}
+_helper = jaxtyped(typechecker=gc.checker("typeguard"))(_helper)
+
+
+class LazyArr:
+    """A lazy array: reading .shape or .dtype runs user code that itself calls a jaxtyped function and opens a context block
+    (re-entrancy in the middle of a leaf check).  Semantically an ordinary duck array."""
+
+    def __init__(self, shape):
+        self._shape = tuple(shape)
+
+    @property
+    def shape(self):
+        _helper(np.zeros((len(self._shape) + 1,)))
+        return self._shape
+
+    @property
+    def dtype(self):
+        with jaxtyped("context"):
+            isinstance(np.zeros((2,)), Shaped[np.ndarray, "vf_lazy_m"])
+        return "float32"
 
 
 def leaf_annotation(spec, wrap):
+    if wrap == "lazy":
+        return Shaped[LazyArr, spec]
     base = Shaped[np.ndarray, spec]
     if wrap == "plain":
         return base
@@ -66,6 +95,8 @@ def build_value(desc, wrap, alias=False):
     def payload(p):
         if p == "int":
             return 12345
+        if wrap == "lazy":
+            return LazyArr(p)
         if alias:
             arr = cache.setdefault(tuple(p), np.zeros(tuple(p)))
         else:
